@@ -49,5 +49,34 @@ def main():
     return 1 if bad else 0
 
 
+
+
+def corrupt_demo():
+    """binding demonstration in the other direction: a recorded trace with ONE field changed must be rejected"""
+    sys.path.insert(0, os.path.join(ROOT, "tools"))
+    import re
+    import vlib
+    run = vlib.Run("XSELF", "quick")
+    exe = vlib.build_driver(run, "list_drv", "list_drv.c", ["librfn/list.c"])
+    tr = vlib.exec_script(run, exe, [], "Gen 3 20 60 5 2\n", run.path("t.ndjson"), "record")
+    ok, n, _ = vlib.validate_trace(run, "TraceList", "TraceList.cfg", tr, tag="orig")
+    print("recorded trace: %d events, accepted=%s" % (n, ok))
+    lines = open(tr).read().splitlines()
+    bad = 0
+    for k, (pat, rep) in enumerate([(r'"r":0', '"r":1'), (r'"seq":\[\[', '"seq":[[2,'), (r'"itl":0', '"itl":1')]):
+        idx = next(i for i, l in enumerate(lines) if i > 20 + 30 * k and re.search(pat, l))
+        mod = list(lines)
+        mod[idx] = re.sub(pat, rep, mod[idx], count=1)
+        p = run.path("corrupt%d.ndjson" % k)
+        open(p, "w").write("\n".join(mod) + "\n")
+        ok2, matched, _ = vlib.validate_trace(run, "TraceList", "TraceList.cfg", p, tag="corrupt%d" % k)
+        print("corrupted event %d (%s -> %s): accepted=%s, rejected at event %d" % (idx + 1, pat, rep, ok2, matched + 1))
+        bad += bool(ok2) or (matched + 1 != idx + 1)
+    return 1 if (bad or not ok) else 0
+
+
+if __name__ == "__main__" and len(sys.argv) > 1 and sys.argv[1] == "--corrupt":
+    sys.exit(corrupt_demo())
+
 if __name__ == "__main__":
     sys.exit(main())
